@@ -755,7 +755,7 @@ class TimeSerializer(TypeSerializer[Time, np.timedelta64]):
             stream.write_signed_varint(value.astype(np.int64))
         else:
             stream.write_signed_varint(
-                value.astype(DATETIME_NANOSECONDS_DTYPE).astype(np.int64)
+                value.astype(TIMEDELTA_NANOSECONDS_DTYPE).astype(np.int64)
             )
 
     def read(self, stream: CodedInputStream) -> Time:
